@@ -45,6 +45,9 @@ pub struct Quirks {
     pub with_where_before_window: bool,
     /// MERGE of a relationship between two bound nodes ignores the written direction
     pub merge_bound_rel_left_to_right: bool,
+    /// (not a deviation) which of the valid outcomes to produce at the first intermediate
+    /// SKIP/LIMIT without ORDER BY: the n-th combination of surviving rows
+    pub window_choice: Option<usize>,
 }
 
 pub fn expr_vars(e: &E, out: &mut Vec<String>) {
@@ -119,6 +122,8 @@ pub struct Ctx<'a> {
     pub path_starts_bound: bool,
     /// some MERGE found more than one existing match
     pub merge_multi_match: bool,
+    /// (rows before, rows kept) of the first intermediate window without ORDER BY
+    pub window_seen: Option<(usize, usize)>,
 }
 
 // ---------------------------------------------------------------------------------------
@@ -1079,7 +1084,21 @@ fn project(proj: &Proj, input: Vec<Env>, cx: &mut Ctx, is_final: bool) -> Result
                 // which rows survive is not determined
                 let distinct_rows: BTreeSet<String> = rows.iter().map(|r| r.iter().map(|v| v.canon()).collect::<Vec<_>>().join("|")).collect();
                 if distinct_rows.len() > 1 {
-                    cx.nondet = true;
+                    match (cx.quirks.window_choice, cx.window_seen) {
+                        (Some(choice), None) => {
+                            // enumerate the valid outcomes: any `hi - lo` of the n rows may survive
+                            let take = hi - lo;
+                            cx.window_seen = Some((n, take));
+                            match nth_combination(n, take, choice) {
+                                Some(idx) => {
+                                    rows = idx.into_iter().map(|i| rows[i].clone()).collect();
+                                    return Ok(Projected { columns, rows, order_cols, pre_window });
+                                }
+                                None => return Err(RefErr::Unsupported("window choices exhausted".into())),
+                            }
+                        }
+                        _ => cx.nondet = true,
+                    }
                 }
             } else {
                 if lo > 0 && lo < n && keys_eq(&rows[lo - 1], &rows[lo]) && rows[lo - 1].iter().map(|v| v.canon()).collect::<Vec<_>>() != rows[lo].iter().map(|v| v.canon()).collect::<Vec<_>>() {
@@ -1093,6 +1112,38 @@ fn project(proj: &Proj, input: Vec<Env>, cx: &mut Ctx, is_final: bool) -> Result
         rows = rows[lo..hi].to_vec();
     }
     Ok(Projected { columns, rows, order_cols, pre_window })
+}
+
+/// the `idx`-th (lexicographic) combination of `k` indices out of `n`, None when exhausted
+pub fn nth_combination(n: usize, k: usize, idx: usize) -> Option<Vec<usize>> {
+    if k > n {
+        return None;
+    }
+    let mut comb: Vec<usize> = (0..k).collect();
+    for _ in 0..idx {
+        // advance to the next combination
+        let mut i = k;
+        loop {
+            if i == 0 {
+                return None;
+            }
+            i -= 1;
+            if comb[i] != i + n - k {
+                break;
+            }
+            if i == 0 {
+                return None;
+            }
+        }
+        comb[i] += 1;
+        for j in i + 1..k {
+            comb[j] = comb[j - 1] + 1;
+        }
+    }
+    if k == 0 && idx > 0 {
+        return None;
+    }
+    Some(comb)
 }
 
 // ---------------------------------------------------------------------------------------
@@ -1532,7 +1583,7 @@ pub struct RunOut {
 
 /// Evaluate a query on the reference graph (mutating it for write clauses).
 pub fn run(g: &mut RGraph, q: &Query, quirks: &Quirks, params: &BTreeMap<String, V>) -> Result<RunOut, RefErr> {
-    let mut cx = Ctx { g, quirks, params, nondet: false, num_ambig: false, wrote: false, after_with: false, path_starts_bound: false, merge_multi_match: false };
+    let mut cx = Ctx { g, quirks, params, nondet: false, num_ambig: false, wrote: false, after_with: false, path_starts_bound: false, merge_multi_match: false, window_seen: None };
     let mut columns: Vec<String> = Vec::new();
     let mut all_rows: Vec<Vec<V>> = Vec::new();
     let mut last: Option<Projected> = None;
